@@ -629,6 +629,7 @@ func (w *Worker) runPath(fn *ssa.Function, it workItem, fuel int64, exp *Explore
 func Explore(mk func() (*Worker, error), fnOf func(*Worker) *ssa.Function, cfg RunConfig) (*Explorer, error) {
 	exp := NewExplorer()
 	exp.MaxPaths = cfg.MaxPaths
+	exp.StopAfterVio = cfg.StopAfterVio
 	if cfg.Timeout > 0 {
 		exp.Deadline = time.Now().Add(cfg.Timeout)
 	}
@@ -671,6 +672,9 @@ func Explore(mk func() (*Worker, error), fnOf func(*Worker) *ssa.Function, cfg R
 				}
 				if !exp.Deadline.IsZero() && time.Now().After(exp.Deadline) {
 					exp.truncate("time budget exhausted")
+				}
+				if exp.vioBudgetSpent() {
+					exp.truncate("stopped after a violation was found (remaining paths not explored)")
 				}
 			}
 		}(k)
